@@ -73,11 +73,50 @@ type Item struct {
 	// request (a sequencing layer is free not to).
 	EmptyRoot bool  `json:"empty_root,omitempty"`
 	MaxB      int64 `json:"maxb,omitempty"`
-	// stop: SaveCache, then exit; with Crash the process dies after K (0..8) of the eight cache files were
-	// renamed into place (files K.. keep their previous content, a partly written <file K>.tmp stays behind)
+	// stop: the real SaveCache runs while the kernel records the operations it performs on the cache files (fsrec.go),
+	// then exit; with Crash the process dies at a point of that recorded log:
+	//   FOps > 0: after FOps-1 recorded file operations (clamped to the length of the log), and, if FBytes != 0 and the
+	//             next recorded operation is the write of a file, INSIDE that write with a strict prefix of its bytes on
+	//             disk under the name the code was writing to: FBytes > 0: 1 + (FBytes-1) mod (length-1) bytes,
+	//             FBytes = -1: half of them, FBytes = -2: all but the last one;
+	//   FOps = 0 (the older form): inside the write that follows 3*K recorded operations + 1 (for the code as it is: the
+	//             temporary file of cache file K, after K files were renamed into place) with half of its bytes, K >= 8: after
+	//             all operations.
+	FOps   int `json:"fops,omitempty"`
+	FBytes int `json:"fbytes,omitempty"`
 	// tamper (NOT a crash): cache file TornFile is truncated in place by hand
 	TornFile int `json:"torn_file,omitempty"` // 0..7
 	TornLen  int `json:"torn_len,omitempty"`  // bytes kept, taken modulo the file length (a strict prefix)
+}
+
+// stopCut resolves the crash point of a cut shutdown against the recorded log: k operations completed, and torn >= 0
+// bytes of operation k (a write) on disk; torn = -1: not inside an operation.
+func stopCut(it Item, ops []FOp) (k int, torn int) {
+	k, fb := it.FOps-1, it.FBytes
+	if it.FOps <= 0 {
+		k, fb = 3*it.K+1, -1
+		if it.K >= 8 || it.K < 0 {
+			k, fb = len(ops), 0
+		}
+	}
+	if k >= len(ops) {
+		return len(ops), -1
+	}
+	if fb == 0 || ops[k].Op != "write" || !ops[k].known || len(ops[k].Content) == 0 {
+		return k, -1
+	}
+	n := len(ops[k].Content)
+	switch {
+	case fb == -1:
+		torn = n / 2
+	case fb < 0:
+		torn = n - 1
+	case n == 1:
+		torn = 0
+	default:
+		torn = 1 + (fb-1)%(n-1)
+	}
+	return k, torn
 }
 
 // Replay is the replayable form of one case.
@@ -406,6 +445,11 @@ type Obs struct {
 	State  *StateObs
 	Tip    []PBlock // the block records served at the store height and one above it (the pending block), afterwards
 	ErrTxt string
+	// stop: the operations on cache files that completed before the process ended (all of SaveCache's, or those before
+	// the cut), as recorded by the kernel; CutK / CutTorn: the resolved crash point (torn = -1: between operations)
+	FOps    []FOp
+	CutK    int
+	CutTorn int
 }
 
 func shapeOf(wr crashds.Write) string {
@@ -574,19 +618,42 @@ func (w *World) Run(idx int, it Item) (obs Obs) {
 			w.Or.afterStep(idx, it, obs, nd.hb.got[nh:], nd.db.got[ndat:])
 		}
 	case "stop":
+		obs.CutTorn = -1
 		if w.node == nil {
 			obs.Res = "not-running"
 			break
 		}
-		old := w.readCacheFiles()
+		before := w.readCacheDir()
+		rec, err := startFsRec(w.cacheDirs())
+		if err != nil {
+			w.Or.fail("harness-file-recorder-failed", err.Error())
+			break
+		}
 		if err := w.node.m.SaveCache(); err != nil {
 			w.Or.fail("save-cache-failed", err.Error())
 		}
+		ops, err := rec.stop()
+		if err != nil {
+			w.Or.fail("harness-file-recorder-failed", err.Error())
+		}
+		after := w.readCacheDir()
+		fillContents(ops, after)
+		if !cutImage(before, ops, len(ops), -1).equal(after) {
+			// the recorded operations do not explain the directory: the crash points derived from them would be wrong
+			w.Or.fail("cache-file-log-does-not-explain-directory", fmt.Sprintf("item %d: recorded %v, before %v, after %v", idx, ops, sortedNames(before), sortedNames(after)))
+		}
+		w.Or.afterSave(idx, before, ops)
+		obs.FOps, obs.CutK, obs.CutTorn = ops, len(ops), -1
 		if it.Crash {
-			if err := w.cutSaveCache(old, it.K); err != nil {
+			k, torn := stopCut(it, ops)
+			if err := materialise(w.cacheDirs(), cutImage(before, ops, k, torn)); err != nil {
 				w.Or.fail("harness-cut-failed", err.Error())
 			}
+			obs.FOps, obs.CutK, obs.CutTorn = ops[:k], k, torn
 			w.Or.cutStop = true
+			if torn >= 0 || (k > 0 && k < len(ops) && ops[k-1].Op == "create") {
+				w.Or.tornWrite = true
+			}
 		}
 		w.node = nil
 		obs.Res = "stopped"
@@ -632,47 +699,6 @@ func (w *World) CacheFiles() []string {
 }
 
 func cacheIdx(j int) int { return ((j % 8) + 8) % 8 }
-
-// readCacheFiles returns the current content of the eight cache files (nil = absent).
-func (w *World) readCacheFiles() [][]byte {
-	var out [][]byte
-	for _, p := range w.CacheFiles() {
-		b, err := os.ReadFile(p)
-		if err != nil {
-			b = nil
-		} else if b == nil {
-			b = []byte{}
-		}
-		out = append(out, b)
-	}
-	return out
-}
-
-// cutSaveCache turns the result of a complete SaveCache into what a process leaves behind that died after
-// j of the eight files were renamed into place (saveMapGob: temporary file + rename): files j.. have their
-// previous content (or are absent), and the temporary file of file j holds a strict prefix of its new content.
-func (w *World) cutSaveCache(old [][]byte, j int) error {
-	files := w.CacheFiles()
-	if j < 0 {
-		j = 0
-	}
-	for i := j; i < len(files); i++ {
-		newContent, _ := os.ReadFile(files[i])
-		if old[i] == nil {
-			if err := os.Remove(files[i]); err != nil && !os.IsNotExist(err) {
-				return err
-			}
-		} else if err := os.WriteFile(files[i], old[i], 0o644); err != nil {
-			return err
-		}
-		if i == j && len(newContent) > 0 {
-			if err := os.WriteFile(files[i]+".tmp", newContent[:len(newContent)/2], 0o644); err != nil {
-				return err
-			}
-		}
-	}
-	return nil
-}
 
 // NOT a crash of the repaired code: cache file j is truncated in place to a strict prefix (an absent file
 // is created empty), as a torn in-place write would have left it before the fix.
@@ -839,6 +865,17 @@ func txsCoq(txs []int) string {
 	return "[" + strings.Join(p, ";") + "]%N"
 }
 
+// StopCoq prints a shutdown with the crash point that was resolved against the recorded log.
+func StopCoq(it Item, o Obs) string {
+	switch {
+	case !it.Crash:
+		return "IStop None"
+	case o.CutTorn >= 0:
+		return fmt.Sprintf("IStop (Some (CutInside %s %s))", vgen.Nat(o.CutK), vgen.N(uint64(o.CutTorn)))
+	}
+	return "IStop (Some (CutAfter " + vgen.Nat(o.CutK) + "))"
+}
+
 func ItemCoq(idx int, it Item) string {
 	var a string
 	switch it.T {
@@ -864,10 +901,7 @@ func ItemCoq(idx int, it Item) string {
 		}
 		a = fmt.Sprintf("AStep %s %s", s, e)
 	case "stop":
-		if it.Crash {
-			return "IStop (Some " + vgen.Nat(it.K) + ")"
-		}
-		return "IStop None"
+		panic("ItemCoq: a stop item is printed by StopCoq")
 	case "tamper":
 		return "ITamper " + vgen.Nat(cacheIdx(it.TornFile))
 	}
@@ -926,7 +960,11 @@ func (o Obs) Coq() string {
 	for _, b := range o.Tip {
 		tip = append(tip, b.Coq())
 	}
-	return fmt.Sprintf("mk_obs %d %s %s %s %s %s %s %s", code, vgen.N(o.N), call, req, vgen.List(sh), vgen.N(o.Height), st, vgen.List(tip))
+	var fo []string
+	for _, f := range o.FOps {
+		fo = append(fo, f.Coq())
+	}
+	return fmt.Sprintf("mk_obs %d %s %s %s %s %s %s %s %s", code, vgen.N(o.N), call, req, vgen.List(sh), vgen.N(o.Height), st, vgen.List(tip), vgen.List(fo))
 }
 
 func b2n(b bool) string {
@@ -948,6 +986,10 @@ func (p PBlock) Coq() string {
 func CaseCoq(cfg Cfg, hist []Item, obs []Obs, lo uint64, blocks []PBlock) string {
 	var items, os, bs []string
 	for i, it := range hist {
+		if it.T == "stop" {
+			items = append(items, StopCoq(it, obs[i]))
+			continue
+		}
 		items = append(items, ItemCoq(i, it))
 	}
 	for _, o := range obs {
